@@ -279,7 +279,7 @@ PROPS["C02"] = {
 
 PROPS["C04"] = {
     "level": "exploration",
-    "rule": ("A layout as in C01, a generated OCI spec (or nil in 1 of 10 cases) and a request of 1..8 names drawn from: names the model "
+    "rule": ("A layout as in C01, a generated OCI spec (or nil in 1 of 10 cases) and a request of 0..8 (sometimes 12, 17, 33 or 70) names drawn from: names the model "
              "resolves, pool names that are unknown / defined only in invalid files, names removed by a same-priority conflict, 20 "
              "syntactically invalid strings (empty, missing parts, trailing separators, blanks, newline), names of a foreign vendor, and "
              "repetitions of earlier entries; in 1 of 3 cases the directories are changed (files added / removed) after the manual-refresh "
@@ -295,7 +295,7 @@ PROPS["C04"] = {
         "note": "trusted: layout.Resolve",
         "technique": "property-based testing: reference-model oracle for the miss list, before/after image comparison of the OCI spec",
     },
-    "health": {"quick": {"mixed-resolvable-and-unresolvable": 3000, "req:conflict-removed": 300, "req:invalid-syntax": 1000, "req:repetition": 1000, "nil-oci-spec": 500, "all-resolve": 500}},
+    "health": {"quick": {"mixed-resolvable-and-unresolvable": 3000, "req:conflict-removed": 300, "req:invalid-syntax": 1000, "req:repetition": 1000, "nil-oci-spec": 500, "all-resolve": 500, "nine-or-more-unresolvable-names": 500}},
     "units": [
         {"name": "rapid", "mode": "rapid", "run": "TestC04Rapid", "checks": {"quick": 24000, "thorough": 480000}},
     ],
@@ -361,7 +361,7 @@ PROPS["C16"] = {
              "'../../x', leading dots, .json/.yaml suffixes, NUL, newline, backslash) and the hostile string generator incl. 300-byte ids and ids sized so that the final file name is 236..256 bytes long; all "
              "four Generate* functions, with '', .json or .yaml appended; 1..3 directories, the last one existing / missing / nested-missing, "
              "in one case of three also listed first (same or another spelling) with the other directories in between; "
-             "pre-existing: the same devices in a lower directory, a file already at the target, the same stem with the other extension, an "
+             "pre-existing: the same devices in a lower directory, a file already at the target or a symbolic link there (to a Spec outside the Spec directories, to the Spec in the lower directory, dangling), the same stem with the other extension, an "
              "unrelated Spec, a named pipe / socket / symbolic link to a directory / dangling link under a name the scan ignores and that sorts "
              "before or after everything generated, plus bystander files outside the Spec directories. Oracle: (1) the generated name is a single path component; "
              "(2) snapshot of the whole sandbox tree (type, size, SHA-256) around WriteSpec - on success only the target in the last directory "
@@ -379,7 +379,7 @@ PROPS["C16"] = {
         "technique": "property-based testing: whole-tree differential snapshots (metamorphic: write then remove restores the tree), round trip through reader and cache",
     },
     "health": {"quick": {"id-with-slash-or-dot": 1500, "class-ends-in-spec-extension": 2000, "lastdir:missing": 1000, "lastdir:nested-missing": 1000,
-                         "pre:same-devices-in-lower-directory": 1000, "pre:file-at-target": 500, "pre:same-stem-other-extension": 300, "write-failed": 50}},
+                         "pre:same-devices-in-lower-directory": 1000, "pre:file-at-target": 500, "pre:symlink-at-target": 500, "pre:same-stem-other-extension": 300, "write-failed": 50}},
     "units": [
         {"name": "rapid", "mode": "rapid", "run": "TestC16Rapid", "checks": {"quick": 24000, "thorough": 480000}},
     ],
